@@ -227,8 +227,10 @@ Definition full_container (version : N) : option N :=
   else None.
 
 (* ------------------------------------------------------------------------------------------- *)
-(* unblindProposal: one goroutine per relay, three tries 250 ms apart, a semaphore that the first
-   relay to obtain a block takes for good; the others notice it after their call returns. *)
+(* unblindProposal: one goroutine per relay, three tries 250 ms apart, a flag that the first relay to
+   obtain a block sets (and only a relay that has a block: since the repair "a relay that returns the
+   unblinded block always hands it over"; before it, a semaphore probed by every returning call); the
+   others notice it after a call of theirs has returned without a block. *)
 
 Record call := { k_start : N; k_finish : N; k_out : uout }.
 
@@ -241,7 +243,7 @@ Definition is_ok (o : uout) : bool := match o with UOk _ | UEcho _ => true | _ =
 Definition finish_of (deadline start lat : N) (o : uout) : N :=
   match o with UHang => N.max start deadline + lat | _ => start + lat end.
 
-(* the calls a relay goroutine makes if the semaphore is never taken by another *)
+(* the calls a relay goroutine makes if the flag is never set by another *)
 Fixpoint free_calls (deadline : N) (tries : nat) (start : N) (script : list (N * uout)) : list call :=
   match tries with
   | O => []
@@ -267,7 +269,8 @@ Definition omin (a b : option N) : option N :=
 Definition sem_free (w : option N) (t : N) : bool :=
   match w with None => true | Some w => t <? w end.
 
-(* the calls actually made: after each returned call the goroutine stops if the semaphore is taken *)
+(* the calls actually made: after each returned call the goroutine stops if the flag is set (a call
+   that returned with a block stops too: it hands the block over) *)
 Fixpoint cut (w : option N) (cs : list call) : list call :=
   match cs with
   | [] => []
@@ -373,17 +376,11 @@ Definition sign_phase (c : config) (e : env) (d : duty) : list event * option (p
                         sp_conts := [(code, {| sb_hdr := Some h; sb_sig := sig; sb_blobs := signed_blobs p |})] |}))
   end end end end end end.
 
-(* unblindProposal builds each request from the signed proposal at the time of the call, and on
-   receiving a relay's block (before the deadline, version bellatrix..deneb) it clears the blinded
-   container of that same structure: a relay that retries after that sends the version and no block.
-   (The real builder client refuses such a request locally.) *)
-Definition late_request (sp : sproposal) : ureq := {| u_version := sp_version sp; u_conts := [] |}.
-
-Definition request_at (sp : sproposal) (w : option N) (deadline st : N) : ureq :=
-  match w, full_container (sp_version sp) with
-  | Some t, Some _ => if (t <? deadline) && (t <? st) then late_request sp else unblind_request sp
-  | _, _ => unblind_request sp
-  end.
+(* unblindProposal builds every relay's request from the signed proposal BEFORE the relay goroutines
+   start (since the repair "unblinding requests are built before the relay goroutines start"; before
+   it each request was built at the time of the call from the structure whose blinded container the
+   collector clears on receiving the first block, so a retry after that sent the version and no
+   block): every call of every relay, whenever it is made, carries [unblind_request sp]. *)
 
 (* when a relay goroutine that supplies nothing ends: after its last call, plus the 250 ms it sleeps
    before noticing that no try is left when that call failed with a retryable error *)
@@ -419,7 +416,7 @@ Definition deliver_phase (c : config) (e : env) (evs : list event) (sp : spropos
   let req := unblind_request sp in
   let plans := plans_from (e_deadline e) cands 0 (e_relays e) in
   let w := first_delivery plans in
-  let calls := map (fun cs => map (fun k => (k_start k, request_at sp w (e_deadline e) (k_start k))) (cut w cs)) plans in
+  let calls := map (fun cs => map (fun k => (k_start k, req)) (cut w cs)) plans in
   match w with
   | Some t =>
       if t <? e_deadline e then
@@ -501,13 +498,16 @@ Fixpoint history (c : config) (ds : list dstate) (ops : list op) : list out :=
       end
   end.
 
-(* No two relay goroutines act at one instant in a way that lets Go's scheduler decide:
-   - two calls of different relays returning together: each probes the semaphore with
-     TryAcquire/Release, which is not atomic, so one of them can find it taken although no relay has
-     delivered, and give up its retries;
-   - the first delivery coinciding with the deadline (the collector's select has both cases ready);
-   - another relay's call starting at the instant of the first delivery (it reads the structure the
-     collector is clearing); the delivering call itself may start at that instant (latency 0). *)
+(* What is left to Go's scheduler (since the two repairs of unblindProposal): what happens at the very
+   instant [w] of the FIRST delivery --
+   - another relay's call returning at [w]: without a block it may or may not see the flag already set
+     (one more try or none); with a block, either block may be the one the collector receives first.
+     (WHETHER a block is submitted at [w] does not depend on it: a relay that has a block always
+     hands it over.)  Calls of different relays returning together at any other instant do not
+     interfere: before [w] the flag is not set, after [w] it is;
+   - the first delivery, or the last relay giving up, coinciding with the deadline (the collector's
+     select has both cases ready).
+   A call that STARTS at [w] is no longer affected (its request was built beforehand). *)
 Definition finishes (plans : list (list call)) : list N := concat (map (map k_finish) plans).
 Definition starts (plans : list (list call)) : list N := concat (map (map k_start) plans).
 
@@ -516,13 +516,10 @@ Definition count_eq (t : N) (l : list N) : nat := length (filter (N.eqb t) l).
 Definition distinct (l : list N) : bool := forallb (fun t => Nat.eqb (count_eq t l) 1) l.
 
 Definition tie_free (deadline : N) (plans : list (list call)) : bool :=
-  distinct (finishes plans)
-  && match first_delivery plans with
-     | None => negb (all_failed_at plans =? deadline)   (* the collector's select has both cases ready *)
-     | Some w => negb (w =? deadline)
-                 && Nat.leb (count_eq w (starts plans))
-                            (count_eq w (map k_start (filter (fun k => is_ok (k_out k) && (k_finish k =? w)) (concat plans))))
-     end.
+  match first_delivery plans with
+  | None => negb (all_failed_at plans =? deadline)   (* the collector's select has both cases ready *)
+  | Some w => negb (w =? deadline) && Nat.eqb (count_eq w (finishes plans)) 1
+  end.
 
 (* ------------------------------------------------------------------------------------------- *)
 (* Time and the context.  Every provider takes its time, and -- like a real client -- gives up with
